@@ -161,6 +161,7 @@ func init() {
 			p.PProbe = 0.12
 			p.BlockOps = []string{"joiner", "joiner", "close", "close", "switch", "switch", "newjoin"}
 			p.MaxSessions = 3
+			p.PEndgame = 0.3
 		}), "distinct run digests in which a session ended (its last member left) after accepted joins", func(r *Result) bool { return trig(r, "departure", "block") })
 	props["C10"] = &propSpec{ID: "C10", Rule: "distinct run digests with at least two id allocations (sessions, participants, entities, types, assets) or a generator micro-world with >= 2 tasks",
 		NonTrivial: func(r *Result) bool { return trig(r) || r.Triggers["idgen_ops"] > 0 },
@@ -171,6 +172,7 @@ func init() {
 			p := concProfile("C10", map[string]int{"entity_add": 16, "entity_delete": 8, "type_add": 10, "asset_add": 10, "switch": 8}, func(p *Profile) {
 				p.PClose = 0.1
 				p.BlockOps = []string{"entity_add", "entity_add", "type_add", "asset_add", "joiner", "newjoin", "close", "switch"}
+				p.PEndgame = 0.2
 			})
 			sc := GenHistory(seed, p)
 			sc.Prop = "C10"
